@@ -57,6 +57,7 @@ type state struct {
 	randCnt    int
 	notes      []string
 	randLog    [][]byte
+	randAllLog [][]byte
 	randIntLog [][]byte
 	frameDumps []string
 	frameRoots []any
@@ -149,17 +150,26 @@ func (replayReader) Read(p []byte) (int, error) {
 		}
 		copy(p[len(p)-len(b):], b)
 		s.randIntLog = append(s.randIntLog, append([]byte{}, p...))
+		s.randAllLog = append(s.randAllLog, append([]byte{}, p...))
 		return len(p), nil
+	}
+	if s.pos < len(vec.Draws) && vec.Draws[s.pos].Kind == "randshort" {
+		next("randshort") // the executor's choice between a full and a short read; the size follows
 	}
 	e := next("rand")
 	b, _ := hex.DecodeString(e.Hex)
-	if len(b) != len(p) {
+	if len(b) > len(p) {
 		panic(fmt.Sprintf("verifrt: rand read of %d octets, vector has %d", len(p), len(b)))
 	}
+	// fewer octets than asked for: a short read, as io.Reader permits (direct Read calls only)
 	copy(p, b)
 	s.randLog = append(s.randLog, append([]byte{}, b...))
-	return len(p), nil
+	s.randAllLog = append(s.randAllLog, append([]byte{}, b...))
+	return len(b), nil
 }
+
+// RandAllLog returns every delivery of the random source so far, in order.
+func RandAllLog() [][]byte { return cur().randAllLog }
 
 // RandIntLog returns, as big-endian octet strings, the values crypto/rand.Int has returned so far.
 func RandIntLog() [][]byte { return cur().randIntLog }
